@@ -2,6 +2,7 @@ package main
 
 import (
 	"fmt"
+	"regexp"
 	"go/token"
 	"go/types"
 	"sort"
@@ -285,7 +286,18 @@ func (fx *FuncCtx) compInit(name string, epoch int) string {
 	return n
 }
 
+// theorySort rewrites the abstract string sort in a ghost declaration for the string theory in force.
+func (fx *FuncCtx) theorySort(s string) string {
+	if fx.u != nil && fx.u.strings && strings.Contains(s, "Str") {
+		return strRe.ReplaceAllString(s, "String")
+	}
+	return s
+}
+
+var strRe = regexp.MustCompile(`\bStr\b`)
+
 func (fx *FuncCtx) heapGet(st *State, name, sortName string) string {
+	sortName = fx.theorySort(sortName)
 	if _, ok := fx.compSort[name]; !ok {
 		fx.compSort[name] = sortName
 	}
@@ -328,6 +340,7 @@ func (fx *FuncCtx) baseLookup(b *heapBase, name string) string {
 }
 
 func (fx *FuncCtx) heapSet(st *State, name, sortName, term string) {
+	sortName = fx.theorySort(sortName)
 	if _, ok := fx.compSort[name]; !ok {
 		fx.compSort[name] = sortName
 	}
